@@ -1,0 +1,193 @@
+//! Verification hooks. Only compiled with `--cfg mini_moka_verif`; never part of
+//! the published API surface.
+//!
+//! - a mock expiration clock that can be installed from outside the crate,
+//! - read-only snapshots of the internal data structures (hash map entries,
+//!   deques in order, counters) together with a structural walker,
+//! - facades over the frequency sketch and the intrusive deque,
+//! - switch points: places between critical sections where a process-global
+//!   callback is invoked, so that a harness can perturb or serialize thread
+//!   schedules.
+
+use std::{
+    sync::{
+        atomic::{AtomicBool, Ordering},
+        Arc, RwLock,
+    },
+    time::{Duration, Instant as StdInstant},
+};
+
+pub use crate::common::deque::VerifDeque;
+pub use crate::common::frequency_sketch::VerifSketch;
+
+//
+// Mock clock
+//
+
+/// A handle to the mock expiration clock installed into a cache.
+#[derive(Clone)]
+pub struct MockClock {
+    pub(crate) mock: Arc<crate::common::time::clock::Mock>,
+}
+
+impl MockClock {
+    pub fn now(&self) -> StdInstant {
+        self.mock.verif_now()
+    }
+
+    pub fn advance(&self, amount: Duration) {
+        self.mock.verif_increment(amount);
+    }
+}
+
+//
+// Snapshots
+//
+
+#[derive(Clone, Debug)]
+pub struct EntrySnap {
+    pub key: u64,
+    pub value: u64,
+    pub weight: u32,
+    /// sync cache only: the weight included in `weighted_size` for this entry.
+    pub accounted_weight: Option<u32>,
+    pub admitted: bool,
+    pub dirty: bool,
+    pub last_accessed: Option<StdInstant>,
+    pub last_modified: Option<StdInstant>,
+    /// sync cache only: address of the shared `EntryInfo` (0 on unsync).
+    pub info_addr: usize,
+    /// (node address, region tag)
+    pub ao_node: Option<(usize, usize)>,
+    pub wo_node: Option<usize>,
+}
+
+#[derive(Clone, Debug)]
+pub struct NodeSnap {
+    pub addr: usize,
+    pub key: u64,
+    /// access-order nodes only.
+    pub hash: u64,
+    /// sync cache only: address of the `EntryInfo` the node refers to.
+    pub info_addr: usize,
+    /// unsync: the timestamp stored in the node. sync: last_accessed (access-order
+    /// nodes) or last_modified (write-order nodes) of the node's `EntryInfo`.
+    pub timestamp: Option<StdInstant>,
+}
+
+#[derive(Clone, Debug, Default)]
+pub struct DequeSnap {
+    /// Nodes from the front (LRU / oldest) to the back.
+    pub nodes: Vec<NodeSnap>,
+    pub len: usize,
+    /// Violated link invariants found by the walker.
+    pub errors: Vec<String>,
+}
+
+#[derive(Clone, Debug, Default)]
+pub struct Snapshot {
+    pub entries: Vec<EntrySnap>,
+    pub window: DequeSnap,
+    pub probation: DequeSnap,
+    pub protected: DequeSnap,
+    pub write_order: DequeSnap,
+    pub entry_count: u64,
+    pub weighted_size: u64,
+    pub max_capacity: Option<u64>,
+    pub read_ch_len: usize,
+    pub write_ch_len: usize,
+    pub sketch_enabled: bool,
+    pub valid_after: Option<StdInstant>,
+    pub is_sync_running: bool,
+}
+
+/// Constants the oracles need.
+pub mod constants {
+    #[cfg(feature = "sync")]
+    use crate::common::concurrent::constants as c;
+    #[cfg(feature = "sync")]
+    pub const MAX_SYNC_REPEATS: usize = c::MAX_SYNC_REPEATS;
+    #[cfg(feature = "sync")]
+    pub const PERIODICAL_SYNC_INTERVAL_MILLIS: u64 = c::PERIODICAL_SYNC_INTERVAL_MILLIS;
+    #[cfg(feature = "sync")]
+    pub const READ_LOG_FLUSH_POINT: usize = c::READ_LOG_FLUSH_POINT;
+    #[cfg(feature = "sync")]
+    pub const READ_LOG_SIZE: usize = c::READ_LOG_SIZE;
+    #[cfg(feature = "sync")]
+    pub const WRITE_LOG_FLUSH_POINT: usize = c::WRITE_LOG_FLUSH_POINT;
+    #[cfg(feature = "sync")]
+    pub const WRITE_LOG_SIZE: usize = c::WRITE_LOG_SIZE;
+    pub const SYNC_EVICTION_BATCH_SIZE: usize = 500;
+    pub const UNSYNC_EVICTION_BATCH_SIZE: usize = 100;
+}
+
+//
+// Switch points
+//
+
+#[derive(Clone, Copy, Debug, PartialEq, Eq, Hash)]
+pub enum Point {
+    /// `insert`: the hash map has been changed, the write op is not yet queued.
+    InsertAfterMap,
+    /// `invalidate`: the entry has been removed from the map, the write op is not
+    /// yet queued.
+    InvalidateAfterMap,
+    /// `get`: the map has been read and its guard released, the read op is not
+    /// yet recorded.
+    GetAfterMap,
+    /// `invalidate_all`: before / after moving the watermark.
+    InvalidateAllBefore,
+    InvalidateAllAfter,
+    /// `schedule_write_op`: before each `try_send`.
+    WriteBeforeSend,
+    /// `schedule_write_op`: the channel was full; carries the number of retries of
+    /// this op so far. Reached right before the back-off sleep.
+    WriteBackoff(u32),
+    /// `Housekeeper::try_sync`.
+    TrySyncBeforeCas,
+    TrySyncCasFailed,
+    TrySyncAcquired,
+    TrySyncBeforeRelease,
+    TrySyncReleased,
+    /// `Inner::sync`: about to lock the deques mutex / mutex acquired / phases /
+    /// mutex released (the guard is dropped before this point is reached).
+    SyncBeforeLock,
+    SyncLocked,
+    SyncAfterReads,
+    SyncAfterWrites,
+    SyncAfterExpire,
+    SyncAfterEvict,
+    SyncUnlocked,
+    /// `handle_upsert`: an admission decision has been taken; victims / the
+    /// candidate are about to be removed from the map.
+    UpsertBeforeVictims,
+    UpsertBeforeReject,
+}
+
+type SwitchHook = Arc<dyn Fn(Point) + Send + Sync + 'static>;
+
+static SWITCH_ENABLED: AtomicBool = AtomicBool::new(false);
+static SWITCH_HOOK: RwLock<Option<SwitchHook>> = RwLock::new(None);
+
+/// Installs (or removes) the process-global switch point callback.
+pub fn set_switch_hook(hook: Option<SwitchHook>) {
+    let mut guard = SWITCH_HOOK.write().unwrap_or_else(|e| e.into_inner());
+    SWITCH_ENABLED.store(hook.is_some(), Ordering::SeqCst);
+    *guard = hook;
+}
+
+#[inline]
+#[allow(dead_code)]
+pub(crate) fn switch(point: Point) {
+    if SWITCH_ENABLED.load(Ordering::Relaxed) {
+        // Do not hold the lock while running the callback; it may block.
+        let hook = SWITCH_HOOK
+            .read()
+            .unwrap_or_else(|e| e.into_inner())
+            .as_ref()
+            .map(Arc::clone);
+        if let Some(hook) = hook {
+            hook(point);
+        }
+    }
+}
